@@ -2288,14 +2288,15 @@ fn mpmc_double_close() {
         .map(|i| {
             let tx = tx.clone();
             spawn(move || {
-                let _ = tx.close();
+                let st = tx.close();
                 assert!(tx.try_send(i).is_err(), "C11: a send succeeded after close() had returned");
+                st.is_newly_closed()
             })
         })
         .collect();
-    for h in hs {
-        h.join().unwrap();
-    }
+    let newly: Vec<bool> = hs.into_iter().map(|h| h.join().unwrap()).collect();
+    assert_eq!(newly.iter().filter(|b| **b).count(), 1, "C11: close() must report NewlyClosed exactly once ({:?})", newly);
+    assert!(!tx.close().is_newly_closed(), "C11: a later close() must report AlreadyClosed");
     assert!(tx.try_send(9).is_err(), "C11: close is permanent");
     let _keep = rx;
 }
